@@ -17,6 +17,7 @@ mod cmd;
 mod prng;
 mod progs;
 mod run;
+mod tty;
 mod vm;
 pub mod watch;
 
@@ -98,6 +99,7 @@ fn main() {
     match o.prop.as_str() {
         "C02" => vm::run(&o),
         "C03" => run::run(&o),
+        "C03T" => tty::run(&o),
         "C06" => cli::run_c06(&o),
         "C09" => dbg::run_c09(&o),
         "C10" => dbg::run_prop(&o, "D10"),
